@@ -119,18 +119,54 @@ def rom_spec(kind, data, aw, bw, pad, a):
 
 # ------------------------------------------------------------------ designs
 
+_PORT_OF = {}    # id('@' net) -> (memory index k, write-port index, the net itself)
+
+SRC_TEXT = {'in': 'Input', 'reg': 'Register (directly; fed by an Input one cycle earlier)', 'const': 'Const',
+            'c0': 'Const 0', 'c1': 'Const 1', 'implicit': 'no EnabledWrite (implicit Const 1)'}
+
+
 class MemCfg(object):
-    def __init__(self, k, aw, dw, nw, nr, tagged=False):
+    """wk[i] = (address source, data source, enable source, constant address) of write port i;
+    rk[j] = address source of read port j.  Sources: 'in' an Input; 'reg' a Register used DIRECTLY as the net's
+    argument (exact width) whose next value is an Input, so the port sees the input of the previous cycle;
+    'const' a Const address; enable also 'c0' / 'c1' (Const) and 'implicit' (plain `mem[a] <<= d`)."""
+
+    def __init__(self, k, aw, dw, nw, nr, tagged=False, wk=None, rk=None):
         self.k, self.aw, self.dw, self.nw, self.nr, self.tagged = k, aw, dw, nw, nr, tagged
+        self.wk = [tuple(x) for x in wk] if wk else [('in', 'in', 'in', 0)] * nw
+        self.rk = list(rk) if rk else ['in'] * nr
         self.mem = None
 
+    def has_regs(self):
+        return any('reg' in w[:3] for w in self.wk) or 'reg' in self.rk
+
+    def plain(self):
+        return all(w[:3] == ('in', 'in', 'in') for w in self.wk) and all(r == 'in' for r in self.rk)
+
     def desc(self):
-        return {'addrwidth': self.aw, 'bitwidth': self.dw, 'write_ports': self.nw, 'read_ports': self.nr,
-                'tagged_low_bits': self.tagged}
+        d = {'addrwidth': self.aw, 'bitwidth': self.dw, 'write_ports': self.nw, 'read_ports': self.nr,
+             'tagged_low_bits': self.tagged}
+        if not self.plain():
+            d['write_port_sources(addr,data,enable,const addr)'] = [list(w) for w in self.wk]
+            d['read_port_sources'] = list(self.rk)
+        return d
+
+
+def _operand(kind, width, name, const=0):
+    if kind == 'in':
+        return pyrtl.Input(width, name)
+    if kind == 'reg':
+        x = pyrtl.Input(width, name)
+        r = pyrtl.Register(width, name + '_r')
+        r.next <<= x
+        return r
+    if kind == 'const':
+        return pyrtl.Const(const, bitwidth=width)
+    raise ValueError(kind)
 
 
 def build_design(cfgs):
-    """one block with several MemBlocks; every port is driven by Inputs"""
+    """one block with several MemBlocks; every port operand is an Input, a Register used directly, or a Const"""
     pyrtl.reset_working_block()
     for c in cfgs:
         k = c.k
@@ -138,36 +174,76 @@ def build_design(cfgs):
                            max_write_ports=None, asynchronous=True)
         c.mem = m
         for i in range(c.nw):
+            ak, dk, ek, ac = c.wk[i]
             if c.tagged:
                 hi = pyrtl.Input(c.aw - 2, 'm%d_wa%d' % (k, i))
                 wa = pyrtl.concat(hi, pyrtl.Const(i, bitwidth=2))
             else:
-                wa = pyrtl.Input(c.aw, 'm%d_wa%d' % (k, i))
-            wd = pyrtl.Input(c.dw, 'm%d_wd%d' % (k, i))
-            we = pyrtl.Input(1, 'm%d_we%d' % (k, i))
-            m[wa] <<= pyrtl.MemBlock.EnabledWrite(wd, we)
+                wa = _operand(ak, c.aw, 'm%d_wa%d' % (k, i), ac)
+            wd = _operand(dk, c.dw, 'm%d_wd%d' % (k, i))
+            if ek == 'implicit':
+                m[wa] <<= wd
+            elif ek == 'c0':
+                m[wa] <<= pyrtl.MemBlock.EnabledWrite(wd, enable=0 if i % 2 else pyrtl.Const(0, bitwidth=1))
+            elif ek == 'c1':
+                m[wa] <<= pyrtl.MemBlock.EnabledWrite(wd, enable=1 if i % 2 else pyrtl.Const(1, bitwidth=1))
+            else:
+                m[wa] <<= pyrtl.MemBlock.EnabledWrite(wd, _operand(ek, 1, 'm%d_we%d' % (k, i)))
+            net = m.writeport_nets[-1]
+            _PORT_OF[id(net)] = (k, i, net)
         for j in range(c.nr):
-            ra = pyrtl.Input(c.aw, 'm%d_ra%d' % (k, j))
+            ra = _operand(c.rk[j], c.aw, 'm%d_ra%d' % (k, j))
             o = pyrtl.Output(c.dw, 'm%d_o%d' % (k, j))
             o <<= m[ra]
     return pyrtl.working_block()
 
 
 def steps_of(cfgs, hists, ncyc):
-    """per-cycle input dicts from the per-memory histories"""
-    steps = []
-    for t in range(ncyc):
-        s = {}
-        for c, h in zip(cfgs, hists):
+    """per-cycle input dicts from the per-memory EFFECTIVE histories (what each port presents to the memory):
+    an operand that goes through a register is supplied one cycle earlier; a Const operand needs no input"""
+    steps = [dict() for _ in range(ncyc)]
+
+    def put(kind, name, t, v):
+        if kind == 'in':
+            steps[t][name] = v
+        elif kind == 'reg':
+            if t > 0:
+                steps[t - 1][name] = v
+            elif v != 0:
+                raise RuntimeError('a register-fed operand must be 0 in cycle 0')
+            if t == ncyc - 1:
+                steps[t][name] = 0
+    for c, h in zip(cfgs, hists):
+        for t in range(ncyc):
             ws, rs = h[t]
             for i, (a, d, e) in enumerate(ws):
-                s['m%d_wa%d' % (c.k, i)] = (a >> 2) if c.tagged else a
-                s['m%d_wd%d' % (c.k, i)] = d
-                s['m%d_we%d' % (c.k, i)] = e
+                ak, dk, ek, ac = c.wk[i]
+                if c.tagged:
+                    steps[t]['m%d_wa%d' % (c.k, i)] = a >> 2
+                else:
+                    put(ak, 'm%d_wa%d' % (c.k, i), t, a)
+                put(dk, 'm%d_wd%d' % (c.k, i), t, d)
+                put(ek, 'm%d_we%d' % (c.k, i), t, e)
             for j, a in enumerate(rs):
-                s['m%d_ra%d' % (c.k, j)] = a
-        steps.append(s)
+                put(c.rk[j], 'm%d_ra%d' % (c.k, j), t, a)
     return steps
+
+
+def verilog_envs(cfgs, hists, steps):
+    """identifier -> value per cycle for the Verilog fragment interpreter: inputs plus the registers that feed ports"""
+    envs = [dict(s) for s in steps]
+    for c, h in zip(cfgs, hists):
+        for t in range(len(steps)):
+            ws, rs = h[t]
+            for i, (a, d, e) in enumerate(ws):
+                for kind, nm, v in ((c.wk[i][0], 'm%d_wa%d_r' % (c.k, i), a), (c.wk[i][1], 'm%d_wd%d_r' % (c.k, i), d),
+                                    (c.wk[i][2], 'm%d_we%d_r' % (c.k, i), e)):
+                    if kind == 'reg' and not c.tagged:
+                        envs[t][nm] = v
+            for j, a in enumerate(rs):
+                if c.rk[j] == 'reg':
+                    envs[t]['m%d_ra%d_r' % (c.k, j)] = a
+    return envs
 
 
 def port_order(nets, k):
@@ -175,9 +251,9 @@ def port_order(nets, k):
     out = []
     for n in nets:
         if n.op == '@':
-            m = re.match(r'm(\d+)_we(\d+)$', n.args[2].name)
-            if m and int(m.group(1)) == k:
-                out.append(int(m.group(2)))
+            ent = _PORT_OF.get(id(n))
+            if ent is not None and ent[2] is n and ent[0] == k:
+                out.append(ent[1])
     return out
 
 
@@ -469,6 +545,8 @@ def verilog_fragment_via_reader(text, cfgs, mems):
     try:
         mod = vr.parse_module(text)
         alias = {lhs: e[1] for lhs, e in mod.assigns if e[0] == 'id'}
+        alias.update({lhs: e[1] for lhs, e in mod.assigns if e[0] == 'dec'})
+        alias.update({lhs: e[2] for lhs, e in mod.assigns if e[0] == 'sized'})
         depth = {i: (w, d) for i, w, d in mod.mems}
         wr = dict(mod.memwrs)
         frag = {}
@@ -492,8 +570,12 @@ def verilog_eval(alias, frag, cfgs, inits, steps):
     def val(name, env):
         seen = 0
         while name not in env:
+            if isinstance(name, int):
+                return name
+            if name.isdigit():
+                return int(name)
             if name not in alias or seen > 50:
-                raise VerilogShapeError('cannot resolve %s to an input' % name)
+                raise VerilogShapeError('cannot resolve %s to an input, a port register or a constant' % name)
             name = alias[name]
             seen += 1
         return env[name]
